@@ -58,7 +58,7 @@ class Project(object):
                 for s in SUFFIXES:
                     if name.endswith(s):
                         mname = name[:-len(s)]
-                        if mname == '__init__':
+                        if mname == '__init__' or '.' in mname:
                             continue
                         modules.add(mname)
                         break
